@@ -87,6 +87,16 @@ func verifResParked(o *outputstream.OutputStream) int {
 	return int(uint32(nl.FieldByName("wait").Uint()) - uint32(nl.FieldByName("notify").Uint()))
 }
 
+// verifResWait scales a wall-clock bound: the bounds only cost time when something is really
+// stuck, so they are generous; $VERIF_WAIT_SCALE multiplies them (the check re-runs a scenario
+// that timed out in isolation with larger bounds before it reports it).
+func verifResWait(d time.Duration) time.Duration {
+	if s, err := strconv.ParseFloat(os.Getenv("VERIF_WAIT_SCALE"), 64); err == nil && s > 0 {
+		return time.Duration(float64(d) * s)
+	}
+	return d
+}
+
 // verifResGuard runs a node operation; false if it did not finish in time (the stream's mutex
 // is held by a handler goroutine that died inside GetNext) or panicked.
 func verifResGuard(d time.Duration, f func()) (done bool, panicked bool) {
@@ -251,13 +261,13 @@ func (pl *verifResCallPlan) calibrate(tmp string) {
 		case b := <-ch:
 			ok = len(b) > 0 && b[0].Id.Id == 6
 		case <-exited:
-		case <-time.After(2 * time.Second):
+		case <-time.After(verifResWait(10 * time.Second)):
 		}
 		cancel()
-		verifResGuard(2*time.Second, func() { o.InterruptGetNext() })
+		verifResGuard(verifResWait(10*time.Second), func() { o.InterruptGetNext() })
 		select {
 		case <-exited:
-		case <-time.After(2 * time.Second):
+		case <-time.After(verifResWait(10 * time.Second)):
 		}
 		return ok
 	}
@@ -303,7 +313,7 @@ func verifResRunCase(f []string, tmp string) string {
 	}
 	var conn *verifConn
 	var pending []*robust.Message
-	const deadlineDur = 4 * time.Second
+	deadlineDur := verifResWait(10 * time.Second)
 
 	poisoned := false
 	disconnect := func() {
@@ -429,7 +439,7 @@ loop:
 			// warm-up: another reader (think of the other sessions' GetMessages requests) walks the
 			// node's whole stream, so that the stream's batch cache is filled and trimmed
 			o := node(p[1])
-			done, _ := verifResGuard(30*time.Second, func() {
+			done, _ := verifResGuard(verifResWait(60*time.Second), func() {
 				cctx, ccancel := context.WithCancel(context.Background())
 				ccancel()
 				cur := uint64(0)
